@@ -225,6 +225,17 @@ def register(T, repo):
                     zint(E['$args']['old']['n'])))
     pm.loop_parser_shapes(lp, parser='self.parser', buf=None)
 
+    def add_grow_mp(cc):
+        prevo = cc.olds
+        cc.olds = (lambda A, prevo=prevo: dict(
+            (prevo(A) if prevo else {}),
+            nflows0=A['self'].fields['parser'].fields['extracted'].length()))
+        cc.ensures.append(('flows-only-grow', lambda A, r: zint(
+            A['self'].fields['parser'].fields['extracted'].length()) >=
+            zint(A['old']['nflows0'])))
+    add_grow_mp(T.get(MP + 'expand_math_section'))
+    add_grow_mp(T.get(MP + 'replace_section'))
+
     # -------------------------------------------------- expand_inline_math
     c = T.get(MP + 'expand_inline_math')
     c.result = lambda A: tm.PreOutList(A['src'], lambda n: zint(n) >= 2)
